@@ -1,1 +1,282 @@
-// harnesses for this module (included by the isomer_erbium_verif hook)
+// Kani harnesses for crates/erbium-core/src/acl.rs (C08: first match wins).
+#[cfg(kani)]
+mod k {
+    use super::super::*;
+    use std::net::{IpAddr, Ipv4Addr, Ipv6Addr};
+
+    fn mask4(len: u8) -> u32 {
+        if len == 0 { 0 } else { u32::MAX << (32 - len as u32) }
+    }
+    fn mask6(len: u8) -> u128 {
+        if len == 0 { 0 } else { u128::MAX << (128 - len as u32) }
+    }
+
+    // reference prefix containment, written from the manual: "matches every address inside the written
+    // prefix, including IPv4 clients seen as IPv4-mapped IPv6 addresses"
+    #[derive(Clone, Copy)]
+    enum P {
+        V4(u32, u8),
+        V6(u128, u8),
+    }
+    #[derive(Clone, Copy)]
+    enum C {
+        V4(u32),
+        V6(u128),
+        Unix,
+    }
+    fn ref_contains(p: P, c: C) -> bool {
+        match (p, c) {
+            (P::V4(w, l), C::V4(ip)) => ip & mask4(l) == w & mask4(l),
+            (P::V6(w, l), C::V6(ip)) => ip & mask6(l) == w & mask6(l),
+            (P::V4(w, l), C::V6(ip)) => (ip >> 32) == 0xffff && (ip as u32) & mask4(l) == w & mask4(l),
+            (P::V6(w, l), C::V4(ip)) => {
+                let m = (0xffffu128 << 32) | ip as u128;
+                l >= 96 && (w >> 32) == 0xffff && m & mask6(l) == w & mask6(l)
+            }
+            (_, C::Unix) => false,
+        }
+    }
+    fn any_p4() -> P {
+        let l: u8 = kani::any();
+        kani::assume(l <= 32);
+        P::V4(kani::any(), l)
+    }
+    fn any_p6() -> P {
+        let l: u8 = kani::any();
+        kani::assume(l <= 128);
+        P::V6(kani::any(), l)
+    }
+    fn mk_prefix(p: P) -> Prefix {
+        match p {
+            P::V4(w, l) => Prefix::new(IpAddr::V4(Ipv4Addr::from(w)), l),
+            P::V6(w, l) => Prefix::new(IpAddr::V6(Ipv6Addr::from(w)), l),
+        }
+    }
+    fn mk_client(c: C) -> Attributes {
+        let port: u16 = kani::any();
+        match c {
+            C::V4(ip) => Attributes { addr: Ipv4Addr::from(ip).with_port(port) },
+            C::V6(ip) => Attributes { addr: Ipv6Addr::from(ip).with_port(port) },
+            C::Unix => {
+                let u = erbium_net::addr::UnixAddr::new("/x").unwrap();
+                use erbium_net::addr::ToNetAddr as _;
+                Attributes { addr: u.to_net_addr() }
+            }
+        }
+    }
+
+    #[derive(Clone, Copy)]
+    struct Perm(bool, bool, bool, bool); // dns, http, metrics, leases
+    fn any_perm() -> Perm {
+        Perm(kani::any(), kani::any(), kani::any(), kani::any())
+    }
+    fn mk_perm(p: Perm) -> Permission {
+        Permission { allow_dns_recursion: p.0, allow_http: p.1, allow_http_metrics: p.2, allow_http_leases: p.3 }
+    }
+    fn any_op() -> (PermissionType, u8) {
+        let o: u8 = kani::any();
+        kani::assume(o < 4);
+        (
+            match o {
+                0 => PermissionType::DnsRecursion,
+                1 => PermissionType::Http,
+                2 => PermissionType::HttpMetrics,
+                _ => PermissionType::HttpLeases,
+            },
+            o,
+        )
+    }
+    fn bit(p: Perm, o: u8) -> bool {
+        match o {
+            0 => p.0,
+            1 => p.1,
+            2 => p.2,
+            _ => p.3,
+        }
+    }
+
+    // reference rule: (subnet list absent or any prefix contains) AND (unix absent or is_unix == flag)
+    struct R<const N: usize> {
+        subnet: Option<[P; N]>,
+        unix: Option<bool>,
+        perm: Perm,
+    }
+    fn ref_rule_matches<const N: usize>(r: &R<N>, c: C) -> bool {
+        let s = match &r.subnet {
+            None => true,
+            Some(ps) => {
+                let mut any = false;
+                let mut i = 0;
+                while i < N {
+                    any = any || ref_contains(ps[i], c);
+                    i += 1;
+                }
+                any
+            }
+        };
+        let u = match r.unix {
+            None => true,
+            Some(b) => matches!(c, C::Unix) == b,
+        };
+        s && u
+    }
+    fn mk_rule<const N: usize>(r: &R<N>) -> Acl {
+        Acl {
+            subnet: r.subnet.map(|ps| {
+                let mut v = Vec::with_capacity(N);
+                let mut i = 0;
+                while i < N {
+                    v.push(mk_prefix(ps[i]));
+                    i += 1;
+                }
+                v
+            }),
+            unix: r.unix,
+            permission: mk_perm(r.perm),
+        }
+    }
+    // decision expected from the first matching rule
+    fn expect(first: Option<Perm>, o: u8, got: &Result<(), AclError>) {
+        match first {
+            None => assert!(matches!(got, Err(AclError::NotAuthenticated)), "no rule matches => NotAuthenticated"),
+            Some(p) => {
+                if bit(p, o) {
+                    assert!(got.is_ok(), "first matching rule grants the permission => allowed");
+                } else {
+                    assert!(matches!(got, Err(AclError::NotAuthorised(_))), "first matching rule lacks the permission => NotAuthorised (later rules are not consulted)");
+                }
+            }
+        }
+    }
+
+    /// VERIF: {"p":"C08","tier":"quick","fns":["acl::require_permission","acl::check_authenticated","acl::Acl::check","acl::check_subnet","config::Prefix::contains"],"bounds":"3 rules, each with one IPv4 subnet of symbolic address/length (host bits free), no unix condition, 4 symbolic permission bits; symbolic IPv4 client (any address, any port); all 4 operations","oracle":"granted <=> the FIRST rule whose subnet contains the client has the permission bit; no matching rule => NotAuthenticated; reference containment = mask semantics on the written prefix","covers":4,"unwind":5}
+    #[kani::proof]
+    #[kani::unwind(5)]
+    fn c08_acl_first_match_3rules_v4() {
+        let rs: [R<1>; 3] = [
+            R { subnet: Some([any_p4()]), unix: None, perm: any_perm() },
+            R { subnet: Some([any_p4()]), unix: None, perm: any_perm() },
+            R { subnet: Some([any_p4()]), unix: None, perm: any_perm() },
+        ];
+        let c = C::V4(kani::any());
+        let acls = vec![mk_rule(&rs[0]), mk_rule(&rs[1]), mk_rule(&rs[2])];
+        let attr = mk_client(c);
+        let (op, o) = any_op();
+        let got = require_permission(&acls, &attr, op);
+        let m = [ref_rule_matches(&rs[0], c), ref_rule_matches(&rs[1], c), ref_rule_matches(&rs[2], c)];
+        let first = if m[0] { Some(rs[0].perm) } else if m[1] { Some(rs[1].perm) } else if m[2] { Some(rs[2].perm) } else { None };
+        kani::cover!(m[0] && m[1] && !bit(rs[0].perm, o) && bit(rs[1].perm, o), "first match denies although a later rule would allow");
+        kani::cover!(!m[0] && !m[1] && m[2] && bit(rs[2].perm, o), "third rule decides");
+        kani::cover!(!m[0] && !m[1] && !m[2], "no rule matches");
+        kani::cover!(!m[0] && m[1] && bit(rs[1].perm, o) && !bit(rs[2].perm, o), "second rule allows");
+        expect(first, o, &got);
+        std::mem::forget(got);
+        std::mem::forget(acls);
+    }
+
+    /// VERIF: {"p":"C08","tier":"quick","fns":["acl::require_permission","acl::Acl::check","acl::check_subnet","config::Prefix::contains (v4/v6/mapped)"],"bounds":"2 rules: {no subnet list, unix flag symbolic (absent/true/false)} then {subnet list [IPv4 prefix, IPv6 prefix], unix flag symbolic}; client symbolic IPv4 or IPv6 (incl. v4-mapped); symbolic permission bits and operation","oracle":"first-match semantics with AND of the two condition kinds and ANY over the subnet list","covers":4,"unwind":5}
+    #[kani::proof]
+    #[kani::unwind(5)]
+    fn c08_acl_first_match_mixed_conditions() {
+        fn any_unix() -> Option<bool> {
+            if kani::any() { Some(kani::any()) } else { None }
+        }
+        let r0: R<2> = R { subnet: None, unix: any_unix(), perm: any_perm() };
+        let r1: R<2> = R { subnet: Some([any_p4(), any_p6()]), unix: any_unix(), perm: any_perm() };
+        let c = if kani::any() { C::V4(kani::any()) } else { C::V6(kani::any()) };
+        let acls = vec![mk_rule(&r0), mk_rule(&r1)];
+        let attr = mk_client(c);
+        let (op, o) = any_op();
+        let got = require_permission(&acls, &attr, op);
+        let (m0, m1) = (ref_rule_matches(&r0, c), ref_rule_matches(&r1, c));
+        let first = if m0 { Some(r0.perm) } else if m1 { Some(r1.perm) } else { None };
+        kani::cover!(!m0 && m1 && matches!(c, C::V6(_)) && bit(r1.perm, o), "v6 client granted by second rule");
+        kani::cover!(!m0 && m1 && matches!(c, C::V6(x) if (x >> 32) == 0xffff), "v4-mapped client matches the v4 prefix");
+        kani::cover!(m0 && r0.unix == Some(false), "unix: false matches a network client");
+        kani::cover!(!m0 && !m1, "unauthenticated");
+        expect(first, o, &got);
+        std::mem::forget(got);
+        std::mem::forget(acls);
+    }
+
+    /// VERIF: {"p":"C08","tier":"quick","fns":["acl::require_permission","acl::Acl::check","acl::check_subnet"],"bounds":"unix-socket client against 3 rules: {one symbolic IPv4 subnet}, {no conditions at all... unix flag symbolic}, {unix: true}; symbolic permission bits and operation","oracle":"a unix client is inside no subnet; unix flag compared exactly; first match decides","covers":3,"unwind":5}
+    #[kani::proof]
+    #[kani::unwind(5)]
+    fn c08_acl_first_match_unix_client() {
+        let u: Option<bool> = if kani::any() { Some(kani::any()) } else { None };
+        let r0: R<1> = R { subnet: Some([any_p4()]), unix: None, perm: any_perm() };
+        let r1: R<1> = R { subnet: None, unix: u, perm: any_perm() };
+        let r2: R<1> = R { subnet: None, unix: Some(true), perm: any_perm() };
+        let c = C::Unix;
+        let acls = vec![mk_rule(&r0), mk_rule(&r1), mk_rule(&r2)];
+        let attr = mk_client(c);
+        let (op, o) = any_op();
+        let got = require_permission(&acls, &attr, op);
+        let (m0, m1, m2) = (ref_rule_matches(&r0, c), ref_rule_matches(&r1, c), ref_rule_matches(&r2, c));
+        assert!(!m0 && m2, "reference sanity");
+        let first = if m1 { Some(r1.perm) } else { Some(r2.perm) };
+        kani::cover!(m1 && u.is_none(), "condition-less rule matches everyone");
+        kani::cover!(!m1 && bit(r2.perm, o), "unix rule grants");
+        kani::cover!(!m1 && !bit(r2.perm, o), "unix rule denies");
+        expect(first, o, &got);
+        std::mem::forget(got);
+        std::mem::forget(acls);
+    }
+
+    /// VERIF: {"p":"C08","tier":"quick","fns":["acl::require_permission","acl::check_authenticated"],"bounds":"empty rule list, symbolic IPv4/IPv6 client, all 4 operations","oracle":"NotAuthenticated","covers":1,"unwind":3}
+    #[kani::proof]
+    #[kani::unwind(3)]
+    fn c08_acl_empty_list_refuses() {
+        let c = if kani::any() { C::V4(kani::any()) } else { C::V6(kani::any()) };
+        let acls: Vec<Acl> = Vec::new();
+        let attr = mk_client(c);
+        let (op, _o) = any_op();
+        let got = require_permission(&acls, &attr, op);
+        kani::cover!(true, "reached");
+        assert!(matches!(got, Err(AclError::NotAuthenticated)), "empty ACL list refuses everyone");
+    }
+
+    /// VERIF: {"p":"C08","tier":"quick","fns":["acl::default_acls","acl::require_permission"],"bounds":"default ACLs derived from one symbolic `addresses` IPv4 prefix (host bits free); symbolic IPv4 client; all 4 operations","oracle":"granted <=> client inside the configured prefix or inside 127.0.0.0/8","covers":3,"unwind":5}
+    #[kani::proof]
+    #[kani::unwind(5)]
+    fn c08_default_acls_v4() {
+        let p = any_p4();
+        let acls = default_acls(&[mk_prefix(p)]);
+        let ip: u32 = kani::any();
+        let c = C::V4(ip);
+        let attr = mk_client(c);
+        let (op, _o) = any_op();
+        let got = require_permission(&acls, &attr, op);
+        let want = ref_contains(p, c) || (ip >> 24) == 127;
+        kani::cover!(ref_contains(p, c) && (ip >> 24) != 127, "inside the configured prefix");
+        kani::cover!(!ref_contains(p, c) && (ip >> 24) == 127, "loopback");
+        kani::cover!(!want, "outsider");
+        if want {
+            assert!(got.is_ok(), "addresses/localhost clients are granted every operation");
+        } else {
+            assert!(matches!(got, Err(AclError::NotAuthenticated)), "outsiders are refused");
+        }
+        std::mem::forget(got);
+        std::mem::forget(acls);
+    }
+
+    /// VERIF: {"p":"C08","tier":"quick","fns":["acl::default_acls","acl::require_permission"],"bounds":"default ACLs from one symbolic IPv4 prefix; unix-socket client; all 4 operations","oracle":"unix clients get the three HTTP permissions but not DNS recursion","covers":2,"unwind":5}
+    #[kani::proof]
+    #[kani::unwind(5)]
+    fn c08_default_acls_unix() {
+        let p = any_p4();
+        let acls = default_acls(&[mk_prefix(p)]);
+        let attr = mk_client(C::Unix);
+        let (op, o) = any_op();
+        let got = require_permission(&acls, &attr, op);
+        kani::cover!(o == 0, "dns");
+        kani::cover!(o == 3, "leases");
+        if o == 0 {
+            assert!(matches!(got, Err(AclError::NotAuthorised(_))), "unix socket clients may not recurse");
+        } else {
+            assert!(got.is_ok(), "unix socket clients may use the HTTP API");
+        }
+        std::mem::forget(got);
+        std::mem::forget(acls);
+    }
+}
